@@ -836,10 +836,23 @@ func scenC04(g *Gen, dir string) ([]*Op, func(e *Env, i int, op *Op, obs []strin
 		nobj += len(x)
 	}
 	total := nobj + 4
+	// one Verifier value kept and used again after the bytes changed behind the handle's back
+	// (another writer on the same storage): what it reports the second time is held to the same rule
+	held := r.Chance(1, 5)
+	if held {
+		ops = append(ops, &Op{Kind: "vhold", V: v}, &Op{Kind: "vheld", N: 0})
+		if r.Chance(1, 2) {
+			ops = append(ops, &Op{Kind: "vheld", N: int64(1 + r.Intn(2))})
+		}
+		g.count("request:one-verifier-before-and-after-the-edit")
+	}
 	// choose the tampering: single-bit flip anywhere, or a field rewrite from the catalogue
 	patchIdx := len(ops)
 	ops = append(ops, &Op{Kind: "patch"}) // sites filled in by the checker once the file length is known
-	forge := s.PGP < 0 && r.Chance(1, 6)
+	if held {
+		ops[patchIdx].Kind = "poke"
+	}
+	forge := s.PGP < 0 && r.Chance(1, 6) && !held
 	if forge {
 		// parser-differential forgery: after the edit, someone without any trusted key signs the
 		// image as it is now and splices that payload into the trusted signature's envelope under
@@ -861,6 +874,12 @@ func scenC04(g *Gen, dir string) ([]*Op, func(e *Env, i int, op *Op, obs []strin
 	mode := r.Intn(11)
 	if forge {
 		mode = 5 + r.Intn(2) // a data bit of an object
+	}
+	if held {
+		ops[ver1] = &Op{Kind: "vheld", N: 0}
+		if r.Chance(2, 3) {
+			mode = 20 // a bit inside the content of an object
+		}
 	}
 	var orig protView
 	var verifiedIDs []uint32
@@ -1864,11 +1883,117 @@ func scenC17Legacy(g *Gen) ([]*Op, func(e *Env, i int, op *Op, obs []string) *Vi
 	return ops, check
 }
 
+// scenC17Held: one Verifier value is asked for its listings, then a signature of one kind is
+// deleted and a signature of the other kind (legacy / current format) is added through the same
+// handle — it lands in the freed slot under the same object ID — and the same Verifier is asked
+// again: the listings are those of the signatures attached now.
+func scenC17Held(g *Gen) ([]*Op, func(e *Env, i int, op *Op, obs []string) *Violation) {
+	r := g.r
+	u := getUniverse()
+	objData := map[uint32][]byte{1: r.Bytes(20), 2: r.Bytes(5), 3: r.Bytes(9)}
+	mk := func(gid uint32, b []byte) DI {
+		return DI{DT: 0x4007, Fail: -1, Data: DataSpec{Lit: b}, Opts: []DIOpt{{Kind: "group", N: gid}}}
+	}
+	ops := []*Op{keysOp(), {Kind: "create", Backend: "buf", COpts: []CreateOpt{{Kind: "cap", I: 12}, {Kind: "det"},
+		{Kind: "descs", DIs: []DI{mk(1, objData[1]), mk(1, objData[2]), mk(2, objData[3])}}}}}
+	type sg struct {
+		gid    uint32
+		legacy bool
+		ent    int
+	}
+	var sigs []sg // signature objects in ID order, IDs 4, 5, …
+	addSig := func(gid uint32, legacy bool) {
+		ent := r.Intn(len(u.PGP))
+		if legacy {
+			content := append(append([]byte{}, objData[1]...), objData[2]...)
+			if gid == 2 {
+				content = objData[3]
+			}
+			ops = append(ops, &Op{Kind: "add", T: TOpt{Kind: "det"}, DI: sigObjectDI(legacyBlob(ent, content, crypto.SHA256), gid, 0, 1, u.PGP[ent].PrimaryKey.Fingerprint, 0)})
+		} else {
+			ops = append(ops, &Op{Kind: "sign", S: SOpts{PGP: ent, Groups: []uint32{gid}, T: TOpt{Kind: "det"}, NoSalt: true}})
+		}
+		sigs = append(sigs, sg{gid, legacy, ent})
+	}
+	firstLegacy := r.Chance(1, 2)
+	addSig(1, firstLegacy)
+	for k := r.Intn(3); k > 0; k-- {
+		addSig(uint32(1+r.Intn(2)), r.Chance(1, 2))
+	}
+	sel := VOpts{NoVS: true, NoKR: true, Legacy: r.Chance(1, 2)}
+	tasks := []uint32{1, 2}
+	switch r.Intn(3) {
+	case 0:
+		sel.Groups, tasks = []uint32{1}, []uint32{1}
+	case 1:
+		sel.Groups = []uint32{1, 2}
+	}
+	expect := func(any bool) string {
+		count := map[string]int{}
+		for _, gid := range tasks {
+			per := map[string]bool{}
+			for _, x := range sigs {
+				if x.gid == gid && x.legacy == sel.Legacy {
+					per[hex.EncodeToString(u.PGP[x.ent].PrimaryKey.Fingerprint)] = true
+				}
+			}
+			for fp := range per {
+				count[fp]++
+			}
+		}
+		var want []string
+		for fp, n := range count {
+			if any || n == len(tasks) {
+				want = append(want, fp)
+			}
+		}
+		sort.Strings(want)
+		return strings.Join(want, ",")
+	}
+	ops = append(ops, factsOp(), &Op{Kind: "vhold", V: sel})
+	want := map[int]string{}
+	want[len(ops)] = expect(true)
+	ops = append(ops, &Op{Kind: "vheld", N: 1})
+	want[len(ops)] = expect(false)
+	ops = append(ops, &Op{Kind: "vheld", N: 2})
+	// the first signature (ID 4) is replaced by one of the other kind
+	ops = append(ops, &Op{Kind: "del", Sel: Sel{Kind: "id", N: 4}, T: TOpt{Kind: "det"}})
+	old := sigs
+	sigs = nil
+	addSig(1, !firstLegacy) // takes slot 4 again
+	sigs = append(sigs, old[1:]...)
+	ops = append(ops, factsOp())
+	want[len(ops)] = expect(true)
+	ops = append(ops, &Op{Kind: "vheld", N: 1})
+	want[len(ops)] = expect(false)
+	ops = append(ops, &Op{Kind: "vheld", N: 2}, obsOp())
+	g.count(fmt.Sprintf("held-listing:legacy-verifier=%v first-signature-legacy=%v", sel.Legacy, firstLegacy))
+	check := func(e *Env, i int, op *Op, obs []string) *Violation {
+		w, ok := want[i]
+		if !ok || len(obs) == 0 || !strings.HasPrefix(obs[0], "fp ok") {
+			return nil
+		}
+		got := strings.TrimPrefix(obs[0], "fp ok ")
+		if got == "fp ok" {
+			got = ""
+		}
+		if got != w {
+			return &Violation{Prop: "C17", Key: "C17:listing", What: fmt.Sprintf("a Verifier kept while a signature was replaced by one of the other kind: listing over groups %v returned [%s], the signatures attached now record [%s]", tasks, got, w), Op: i}
+		}
+		return nil
+	}
+	return ops, check
+}
+
 func scenC17(g *Gen, dir string) ([]*Op, func(e *Env, i int, op *Op, obs []string) *Violation) {
 	r := g.r
 	if r.Chance(1, 4) {
 		g.count("variant:legacy-listings")
 		return scenC17Legacy(g)
+	}
+	if r.Chance(1, 5) {
+		g.count("variant:verifier-kept-across-signature-replacement")
+		return scenC17Held(g)
 	}
 	u := getUniverse()
 	create, groups := g.baseImage(3, 14)
@@ -2102,7 +2227,7 @@ func runInteg(prop, dir string, seed uint64) (*Case, []*Violation, map[string]in
 			cp.Sites = renameGroupSites(e.storeBytes(), int(e.f.DescriptorsTotal()), gid|0xf0000000, ng|0xf0000000)
 			cp.Raw = nil
 		}
-		if cp.Kind == "patch" && len(cp.Sites) == 0 && len(cp.SwapSlots) == 0 && len(cp.CopySlot) == 0 && e.f != nil {
+		if (cp.Kind == "patch" || cp.Kind == "poke") && len(cp.Sites) == 0 && len(cp.SwapSlots) == 0 && len(cp.CopySlot) == 0 && e.f != nil {
 			fillPatch(g, &cp, e.storeBytes())
 		}
 		obs := e.Apply(&cp)
